@@ -310,7 +310,7 @@ class Impl:
 
     def outcome(self, s, c):
         try:
-            r = guard.guarded(lambda: self.call(s, c), 20.0)
+            r = guard.guarded(lambda: self.call(s, c), 8.0)
         except sansldap.ProtocolError as e:
             return {"k": "ProtocolError", "resp": self.notification_kind(e.response)}, e
         except sansldap.LDAPError as e:
